@@ -146,6 +146,8 @@ def run(check, mirror, tier):
     crate_num = MirCrate(mirror, ["feel-evaluator", "feel-number", "feel"], overflow_checks=True)
     ops.jobs_for(check, mirror, rb, crate, crate_num, U, jobs, tier, KNOWN_PRED)
     run_parallel(check, jobs)
+    # `=` on contexts and scalars is part of the core fragment (decided by C09)
+    run_companion(check, mirror, tier, "C09", ["equality_contexts", "equality_scalars"])
 
 
 def replay_for(kinds, i, rb, L):
